@@ -73,6 +73,12 @@ session table is cleaned when a virtual session ends by any path, and only membe
 marked as being in its call. -/
 theorem C07_facts : Generated.Hub.vtableClearedOnClose = true ∧ Generated.Hub.inCallMembersOnly = true := by decide
 
+/-- The model registers a session in one step: the limit is compared and the session recorded without
+anything in between.  The source does the same only while `Backend.AddSession` compares and records inside
+one critical section — a fact regenerated on every run (`limitCheckAtomic`); `C07_limit_respected` speaks
+about the code only as long as it holds. -/
+theorem C07_limit_check_atomic : Generated.Hub.limitCheckAtomic = true := by decide
+
 private def demo : List Op :=
   [.connect 1, .connect 2, .hello 1 0 .internal "" true false, .hello 2 0 .client "bob" false false,
    .join 2 "roomA" "nc2" (.ok none ""), .addVirtual 1 "roomA" "v1" "carol" none true, .bye 1]
